@@ -49,7 +49,7 @@ CFG = {
         "operations, Lock on a mutex held across network I/O, dial, net.Conn I/O with/without a context deadline) with the exits "
         "each offers; this extraction is a syntactic approximation (go statements and function values other than the dialer are "
         "not followed) and is trusted",
-        "regenerated from source on every run (go2v/locksites.go -> Gen/GenLockSites.v): for every function / function literal of "
+        "regenerated from source on every run (go2v/lockprogs.go -> Gen/GenLockProgs.v): for every function / function literal of "
         "package tchannel that performs a lock operation its LOCK PROGRAM (control-flow skeleton: Lock/RLock/Unlock/RUnlock/defer Unlock, "
         "blocking statements, calls with the callee's summary 'may block / acquires these mutexes' over the static call graph, returns, "
         "panics, break/continue, branches, loops), the mutex table with a rank witness, and the lock acquisitions in the closure of the "
